@@ -150,6 +150,14 @@ func (E *Engine) callFn(m *Machine, f *Frame, x *ssa.Call, fn *ssa.Function, bin
 		f.Env[x] = md(m, f, &x.Call, args)
 		return false
 	}
+	if strings.HasPrefix(full, "golang.org/x/exp/slices.IndexFunc[") || strings.HasPrefix(full, "slices.IndexFunc[") {
+		// slices.IndexFunc(s, pred): some index of s, or -1; which one is not modelled (enough for bounds and panic-freedom)
+		E.Assume("A-INDEXFUNC", "slices.IndexFunc(s, pred) returns -1 or an index inside s; the predicate is not interpreted")
+		idx := E.D.Fresh("indexfunc", SInt)
+		m.AssumeT(And(Ge(idx, IntLit(-1)), Lt(idx, m.lenOf(args[0]))))
+		f.Env[x] = idx
+		return false
+	}
 	if isModuleFn(fn) {
 		if v, ok := E.keyBuilderCall(m, fn, args); ok {
 			f.Env[x] = v
